@@ -88,6 +88,7 @@ func randRun(rd *rand.Rand, kind string, r rng, m map[string]entry, limit int) (
 	}
 	ru := runeStarts[rd.Intn(len(runeStarts))] + rd.Intn(3)
 	throughInvalid := rd.Intn(2) == 0
+	varyPrefix := rd.Intn(3) == 0
 	for i := 0; i < n && c != nil && len(m) < limit; i++ {
 		var v val
 		if kind == "cid" {
@@ -100,6 +101,10 @@ func randRun(rd *rand.Rand, kind string, r rng, m map[string]entry, limit int) (
 				} else {
 					ru = 0xe000 + rd.Intn(100)
 				}
+			}
+			if len(prefix) > 0 && varyPrefix && rd.Intn(3) == 0 {
+				prefix = append([]int{}, prefix...)
+				prefix[rd.Intn(len(prefix))] = 0x61 + rd.Intn(26)
 			}
 			v = textVal(append(append([]int{}, prefix...), ru))
 			if rd.Intn(40) == 0 {
@@ -539,9 +544,78 @@ func wideRangeCase(rd *rand.Rand, n, id int) *conCase {
 	return c
 }
 
+// multiRuneCase: runs of consecutive codes with texts of 2-4 runes (BMP and astral):
+// (a) everything but the last rune equal, the last rune incrementing - a genuine
+// incrementing bfrange, (b) the last rune incrementing but a leading rune different,
+// (c) the last rune incrementing but the lengths different, (d) the last rune
+// stepping over a low-byte boundary (..FF -> ..00), also at the BMP/astral border.
+func multiRuneCase(rd *rand.Rand, id int) *conCase {
+	name := []string{"1byte", "2byte", "rksj"}[id%3]
+	csr := spaces[name]
+	c := &conCase{Kind: "tu", CSR: csr, Origin: fmt.Sprintf("multirune:%s/#%d", name, id)}
+	c.Opt = options{Version: versionNames[id%len(versionNames)], Pretty: id%2 == 0}
+	m := map[string]entry{}
+	leads := []int{0x66, 0x74, 0x73, 0x1f600, 0x4e00, 0x10000, 0x61}
+	lasts := []int{0x69, 0xfd, 0x1fd, 0xfffd - 0x100, 0xfffc, 0x1fffd, 0x10fff0, 0x3b1}
+	for len(m) < 150 {
+		r := csr[rd.Intn(len(csr))]
+		code := randCode(rd, r)
+		n := 2 + rd.Intn(3) // runes per text
+		prefix := make([]int, n-1)
+		for i := range prefix {
+			prefix[i] = leads[rd.Intn(len(leads))]
+		}
+		last := lasts[rd.Intn(len(lasts))]
+		mode := rd.Intn(4) // 0 genuine, 1 prefix differs, 2 lengths differ, 3 genuine across a byte boundary
+		if mode == 3 {
+			last = []int{0xfe, 0x1fe, 0xfffe, 0x1fffe}[rd.Intn(4)]
+		}
+		for k := 0; k < 2+rd.Intn(5) && code != nil; k++ {
+			t := append(append([]int{}, prefix...), last+k)
+			switch mode {
+			case 1:
+				if k > 0 {
+					t[rd.Intn(n-1)] = leads[(rd.Intn(len(leads)-1)+1+k)%len(leads)]
+				}
+			case 2:
+				if k%2 == 1 {
+					t = append([]int{0x78}, t...)
+				}
+			}
+			ok := true
+			for _, x := range t {
+				ok = ok && validRune(x)
+			}
+			if !ok {
+				break
+			}
+			m[key(code)] = entry{C: code, V: textVal(t)}
+			c.Probes = append(c.Probes, code)
+			code = next(r, code)
+		}
+		if code != nil {
+			c.Probes = append(c.Probes, code)
+		}
+	}
+	c.Layers = []layer{{Entries: sortedEntries(m), Notdef: []notdef{}}}
+	seen := map[string]bool{}
+	ps := c.Probes
+	c.Probes = nil
+	for _, p := range ps {
+		if !seen[key(p)] {
+			seen[key(p)] = true
+			c.Probes = append(c.Probes, p)
+		}
+	}
+	return c
+}
+
 func randomCases(ctx *core.Ctx) []*conCase {
 	rd := ctx.Rand("random-maps")
 	var out []*conCase
+	for i := 0; i < ctx.Pick(6, 30); i++ {
+		out = append(out, multiRuneCase(rd, i))
+	}
 	out = append(out, wideRangeCase(rd, 4, 0), wideRangeCase(rd, 3, 1))
 	for v := 0; v < 5; v++ {
 		out = append(out, wideNotdefCase(rd, 4, v, v), wideNotdefCase(rd, 3, v, v+1))
